@@ -124,13 +124,13 @@ theorem call_ok {defs : List Def} {n : Nat} (ih : SoundAt defs n) {S1 : List T} 
     {kd : Nat} {g' : TEnvB}
     (hlen : ps.length = pts.length) (hv : ValsOk defs S1 vs pts) (hs1 : StOk defs S1 sa)
     (hec : EnvOkB S1 gc cenv)
-    (hcb : checkBlock defs kd ⟨bindTys ps pts gc, [], some r⟩ body = some (tv, g'))
+    (hcb : checkBlock defs kd ⟨bindTys ps pts gc, [], some r, ps⟩ body = some (tv, g'))
     (hf : fits tv r = true) :
     ∃ env' s2, bindParams ps vs cenv sa = some (env', s2) ∧
       ERes defs S1 r (callResult (execBlock defs n env' s2 body).1, (execBlock defs n env' s2 body).2.2) := by
   obtain ⟨env', s2, hb, hs2, he2⟩ := bindParams_ok ps vs pts S1 gc cenv sa hlen hv hs1 hec
   refine ⟨env', s2, hb, ?_⟩
-  obtain ⟨S3, hx3, hs3, ho3, _⟩ := ih.block (S1 ++ pts) ⟨bindTys ps pts gc, [], some r⟩ env' s2 body kd tv g' hs2 he2 hcb
+  obtain ⟨S3, hx3, hs3, ho3, _⟩ := ih.block (S1 ++ pts) ⟨bindTys ps pts gc, [], some r, ps⟩ env' s2 body kd tv g' hs2 he2 hcb
   exact ⟨S3, Ext.trans ⟨pts, rfl⟩ hx3, hs3, callResult_ok ho3 hf⟩
 
 theorem defSig_length {d : Def} {sig : List T × T} (h : defSig d = some sig) :
@@ -273,8 +273,9 @@ theorem sound_expr_succ (defs : List Def) (hd : DefsOk defs) (n : Nat) (ih : Sou
         simp only [checkDef, hsig] at hkd
         split at hkd
         · rename_i tv g' hcb
+          simp only [Bool.and_eq_true] at hkd
           obtain ⟨env', s2, hb, hres⟩ := call_ok ih (defSig_length hsig) (ValsOk.fits ho1 hfit) hs1
-            (fun _ _ h => by simp [lookupT] at h) hcb hkd
+            (fun _ _ h => by simp [lookupT] at h) hcb hkd.1
           rw [hb]
           exact hres.ext hx1
         · cases hkd
@@ -315,9 +316,10 @@ theorem sound_expr_succ (defs : List Def) (hd : DefsOk defs) (n : Nat) (ih : Sou
     split at hc
     · rename_i hf
       cases hc
+      simp only [Bool.and_eq_true] at hf
       refine ⟨S, Ext.refl S, by simpa [evalExpr] using hs, ?_⟩
       simp only [evalExpr, OutOk, HasTy]
-      refine ⟨_, _, _, rfl, ?_, g, k, tv.1, tv.2, he, hcb, hf⟩
+      refine ⟨_, _, _, rfl, ?_, g, k, tv.1, tv.2, he, hcb, hf.1⟩
       simp [ofTys_length _ _ hpts]
     · cases hc
 
@@ -376,7 +378,7 @@ theorem sound_catches_succ (defs : List Def) (n : Nat) (ih : SoundAt defs n) :
         obtain ⟨hi, hs1⟩ := hs.alloc (patTy_sound (defs := defs) (S := S) hp)
         have he1 := he.cons x (patTy p)
         rw [← hi] at he1
-        obtain ⟨S2, hx2, hs2, ho2, _⟩ := ih.block (S ++ [patTy p]) { c with vars := (x, patTy p) :: c.vars }
+        obtain ⟨S2, hx2, hs2, ho2, _⟩ := ih.block (S ++ [patTy p]) { c with vars := (x, patTy p) :: c.vars, scope := [x] }
           ((x, (s.alloc v).1) :: env) (s.alloc v).2 body k rb.1 rb.2 hs1 he1 hcb
         refine ⟨S2, Ext.trans ⟨[patTy p], rfl⟩ hx2, hs2, ?_⟩
         rcases heb : execBlock defs n ((x, (s.alloc v).1) :: env) (s.alloc v).2 body with ⟨ob, eb, sb⟩
@@ -441,10 +443,15 @@ theorem sound_block_succ (defs : List Def) (n : Nat) (ih : SoundAt defs n) :
     cases rest with
     | nil =>
       simp only [checkBlock] at hc
-      simp only [execBlock]
-      exact ih.stmt S c env s st k t g' hs he hc
+      split at hc
+      · simp only [execBlock]
+        exact ih.stmt S c env s st k t g' hs he hc
+      · cases hc
     | cons st2 rest2 =>
-      simp only [checkBlock, Option.bind_eq_some_iff] at hc
+      simp only [checkBlock] at hc
+      split at hc
+      case isFalse => cases hc
+      simp only [Option.bind_eq_some_iff] at hc
       obtain ⟨r1, hc1, hc2⟩ := hc
       obtain ⟨S1, hx1, hs1, ho1, he1⟩ := ih.stmt S c env s st k r1.1 r1.2 hs he hc1
       simp only [execBlock]
@@ -452,7 +459,7 @@ theorem sound_block_succ (defs : List Def) (n : Nat) (ih : SoundAt defs n) :
       rw [hea] at hs1 ho1 he1
       cases oa with
       | val va =>
-        exact (ih.block S1 { c with vars := r1.2 } ea sa (st2 :: rest2) k t g' hs1 (he1 va rfl) hc2).ext hx1 rfl rfl
+        exact (ih.block S1 { c with vars := r1.2, scope := declAdd c.scope st } ea sa (st2 :: rest2) k t g' hs1 (he1 va rfl) hc2).ext hx1 rfl rfl
       | _ => exact ⟨S1, hx1, hs1, ho1.retype (fun _ h => by cases h), fun v h => by cases h⟩
 
 /-- the part of a `do` before its `finally` -/
@@ -464,9 +471,9 @@ def tryCoreB (defs : List Def) (n : Nat) (env : Env) (s : St) (body : List Stmt)
 theorem tryCoreB_ok {defs : List Def} {n : Nat} (ih : SoundAt defs n) {S : List T} {c : Ctx} {env : Env}
     {s : St} {body : List Stmt} {cs : List Catch} {k : Nat} {rb : T × TEnvB} {tc : T}
     (hs : StOk defs S s) (he : EnvOkB S c.vars env)
-    (hcb : checkBlock defs k c body = some rb) (hcc : checkCatches defs k c cs = some tc) :
+    (hcb : checkBlock defs k { c with scope := [] } body = some rb) (hcc : checkCatches defs k c cs = some tc) :
     CRes defs S c (join rb.1 tc) (tryCoreB defs n env s body cs) := by
-  obtain ⟨S1, hx1, hs1, ho1, _⟩ := ih.block S c env s body k rb.1 rb.2 hs he hcb
+  obtain ⟨S1, hx1, hs1, ho1, _⟩ := ih.block S { c with scope := [] } env s body k rb.1 rb.2 hs he hcb
   unfold tryCoreB
   rcases heb : execBlock defs n env s body with ⟨ob, eb, sb⟩
   rw [heb] at hs1 ho1
@@ -479,7 +486,7 @@ theorem tryCoreB_ok {defs : List Def} {n : Nat} (ih : SoundAt defs n) {S : List 
 theorem finally_ok {defs : List Def} {n : Nat} (ih : SoundAt defs n) {S : List T} {c : Ctx} {env : Env}
     {r2 : Out × St} {f : List Stmt} {k : Nat} {rf : T × TEnvB} {t : T}
     (h2 : CRes defs S c t r2) (he : EnvOkB S c.vars env)
-    (hcf : checkBlock defs k c f = some rf) :
+    (hcf : checkBlock defs k { c with scope := [] } f = some rf) :
     SRes defs S c t c.vars (finallyPhase env r2 (execBlock defs n env r2.2 f)) := by
   obtain ⟨S2, hx2, hs2, ho2⟩ := h2
   unfold finallyPhase
@@ -487,7 +494,7 @@ theorem finally_ok {defs : List Def} {n : Nat} (ih : SoundAt defs n) {S : List T
   · simp only [hfat, if_true]
     exact ⟨S2, hx2, hs2, ho2, fun _ _ => he.mono hx2⟩
   · simp only [hfat]
-    obtain ⟨S3, hx3, hs3, ho3, _⟩ := ih.block S2 c env r2.2 f k rf.1 rf.2 hs2 (he.mono hx2) hcf
+    obtain ⟨S3, hx3, hs3, ho3, _⟩ := ih.block S2 { c with scope := [] } env r2.2 f k rf.1 rf.2 hs2 (he.mono hx2) hcf
     rcases hef : execBlock defs n env r2.2 f with ⟨o3, e3, s3⟩
     rw [hef] at hs3 ho3
     cases o3 with
@@ -499,8 +506,8 @@ theorem loop_tail_ok {defs : List Def} {S S2 : List T} {c : Ctx} {env : Env} {lb
     {tb : T} {ob : Out} {sb : St} {again : Out × Env × St}
     (hx : Ext S S2) (hs2 : StOk defs S2 sb) (he : EnvOkB S c.vars env)
     (ho2 : OutOk defs S2 (lbl :: c.labels) c.ret tb ob)
-    (hrec : SRes defs S2 c .nil c.vars again) :
-    SRes defs S c .nil c.vars
+    (hrec : SRes defs S2 c .any c.vars again) :
+    SRes defs S c .any c.vars
       (match ob with
        | .val _ => again
        | .cont l => if labelHits lbl l then again else (.cont l, env, sb)
@@ -559,14 +566,16 @@ theorem sound_stmt_succ (defs : List Def) (n : Nat) (ih : SoundAt defs n) :
   | print e =>
     simp only [checkStmt, Option.bind_eq_some_iff] at hc
     obtain ⟨te, hce, hc⟩ := hc
-    cases hc
-    obtain ⟨S1, hx1, hs1, ho1⟩ := ih.expr S c.vars env s e k te hs he hce
-    simp only [execStmt]
-    rcases hea : evalExpr defs n env s e with ⟨oa, sa⟩
-    rw [hea] at hs1 ho1
-    cases oa with
-    | val v => exact ⟨S1, hx1, hs1.emit _, by simp [OutOk, HasTy], fun _ _ => he.mono hx1⟩
-    | _ => exact SRes.of_expr_nonval hx1 hs1 ho1 (fun _ h => by cases h)
+    split at hc
+    · cases hc
+      obtain ⟨S1, hx1, hs1, ho1⟩ := ih.expr S c.vars env s e k te hs he hce
+      simp only [execStmt]
+      rcases hea : evalExpr defs n env s e with ⟨oa, sa⟩
+      rw [hea] at hs1 ho1
+      cases oa with
+      | val v => exact ⟨S1, hx1, hs1.emit _, by simp [OutOk, HasTy], fun _ _ => he.mono hx1⟩
+      | _ => exact SRes.of_expr_nonval hx1 hs1 ho1 (fun _ h => by cases h)
+    · cases hc
   | ite cnd tb eb =>
     simp only [checkStmt, Option.bind_eq_some_iff] at hc
     obtain ⟨tc, hcc, r1, hc1, r2, hc2, hc⟩ := hc
@@ -580,10 +589,10 @@ theorem sound_stmt_succ (defs : List Def) (n : Nat) (ih : SoundAt defs n) :
       simp only
       by_cases htr : vc.truthy = true
       · simp only [htr, if_true]
-        obtain ⟨S2, hx2, hs2, ho2, _⟩ := ih.block S1 c env sa tb k r1.1 r1.2 hs1 (he.mono hx1) hc1
+        obtain ⟨S2, hx2, hs2, ho2, _⟩ := ih.block S1 { c with scope := [] } env sa tb k r1.1 r1.2 hs1 (he.mono hx1) hc1
         exact ⟨S2, hx1.trans hx2, hs2, ho2.weaken (fun _ => join_left), fun _ _ => he.mono (hx1.trans hx2)⟩
       · simp only [htr]
-        obtain ⟨S2, hx2, hs2, ho2, _⟩ := ih.block S1 c env sa eb k r2.1 r2.2 hs1 (he.mono hx1) hc2
+        obtain ⟨S2, hx2, hs2, ho2, _⟩ := ih.block S1 { c with scope := [] } env sa eb k r2.1 r2.2 hs1 (he.mono hx1) hc2
         exact ⟨S2, hx1.trans hx2, hs2, ho2.weaken (fun _ => join_right), fun _ _ => he.mono (hx1.trans hx2)⟩
     | _ => exact SRes.of_expr_nonval hx1 hs1 ho1 (fun _ h => by cases h)
   | «while» lbl cnd body =>
@@ -599,11 +608,11 @@ theorem sound_stmt_succ (defs : List Def) (n : Nat) (ih : SoundAt defs n) :
       simp only
       by_cases htr : vc.truthy = true
       · simp only [htr, if_true]
-        obtain ⟨S2, hx2, hs2, ho2, _⟩ := ih.block S1 { c with labels := lbl :: c.labels } env sa body k rb.1 rb.2
+        obtain ⟨S2, hx2, hs2, ho2, _⟩ := ih.block S1 { c with labels := lbl :: c.labels, scope := [] } env sa body k rb.1 rb.2
           hs1 (he.mono hx1) hcb
         rcases heb : execBlock defs n env sa body with ⟨ob, eb, sb⟩
         rw [heb] at hs2 ho2
-        have hrec := ih.stmt S2 c env sb (.while lbl cnd body) (k + 1) .nil c.vars hs2
+        have hrec := ih.stmt S2 c env sb (.while lbl cnd body) (k + 1) .any c.vars hs2
           (he.mono (hx1.trans hx2)) hc0
         cases ob <;> exact loop_tail_ok (hx1.trans hx2) hs2 he ho2 hrec
       · simp only [htr]
@@ -614,11 +623,11 @@ theorem sound_stmt_succ (defs : List Def) (n : Nat) (ih : SoundAt defs n) :
     obtain ⟨rb, hcb, hc⟩ := hc
     cases hc
     simp only [execStmt]
-    obtain ⟨S2, hx2, hs2, ho2, _⟩ := ih.block S { c with labels := lbl :: c.labels } env s body k rb.1 rb.2
+    obtain ⟨S2, hx2, hs2, ho2, _⟩ := ih.block S { c with labels := lbl :: c.labels, scope := [] } env s body k rb.1 rb.2
       hs he hcb
     rcases heb : execBlock defs n env s body with ⟨ob, eb, sb⟩
     rw [heb] at hs2 ho2
-    have hrec := ih.stmt S2 c env sb (.loop lbl body) (k + 1) .nil c.vars hs2 (he.mono hx2) hc0
+    have hrec := ih.stmt S2 c env sb (.loop lbl body) (k + 1) .any c.vars hs2 (he.mono hx2) hc0
     cases ob <;> exact loop_tail_ok hx2 hs2 he ho2 hrec
   | brk l =>
     simp only [checkStmt] at hc
